@@ -1003,7 +1003,7 @@ def decode_day_of_week(data: int) -> str:
     bits = bin(data)[2:]
     daynames = list(DAY_NAMES)
     days = ""
-    for each in bits[::-1]:
+    for each in bits[::-1][:len(DAY_NAMES)]:
         if each == '1':
             if len(days) > 0:
                 days += ","
@@ -1018,7 +1018,7 @@ def decode_months(data: int) -> str | None:
     bits = bin(data)[2:]
     monthnames = list(MONTH_NAMES)
     months = ""
-    for each in bits[::-1]:
+    for each in bits[::-1][:len(MONTH_NAMES)]:
         if each == '1':
             if len(months) > 0:
                 months += ","
